@@ -7,6 +7,7 @@ import (
 	"errors"
 	"fmt"
 	"io"
+	"math"
 	"mime"
 	"mime/multipart"
 	"net"
@@ -21,6 +22,7 @@ import (
 	"sync"
 	"sync/atomic"
 	"syscall"
+	"time"
 
 	fpgo "github.com/TeaEntityLab/fpGo/v2"
 	"github.com/TeaEntityLab/fpGo/v2/network"
@@ -108,6 +110,15 @@ func (s *c17Stub) take() []c17Captured {
 	s.reqs = nil
 	return r
 }
+
+type c17ErrStringer struct{}
+
+func (c17ErrStringer) Error() string  { return "as-error" }
+func (c17ErrStringer) String() string { return "as-stringer" }
+
+type c17ValStringer struct{}
+
+func (c17ValStringer) String() string { return "val" }
 
 type c17Target struct {
 	V int
@@ -623,7 +634,10 @@ func runC17(c *core.Ctx) {
 	defer os.Remove(tmp)
 	e := &c17Env{c: c, tmpFile: tmp}
 	templates := []string{"", "users", "users/{id}", "{a}/{b}", "{a}{b}", "{a}/x/{a}", "{a}/{b}/{c}/{d}", "x/{missing}/y"}
-	params := []network.PathParam{nil, {}, {"id": 5}, {"a": "x", "b": "y"}, {"a": 1, "b": 2, "c": 3, "d": 4}, {"a": "sp ace", "b": "ü"}, {"extra": "e", "a": "A"}, {"a": "v/1", "b": true, "id": "q?x=1"}, {"a": "%zz"}}
+	params := []network.PathParam{nil, {}, {"id": 5}, {"a": "x", "b": "y"}, {"a": 1, "b": 2, "c": 3, "d": 4}, {"a": "sp ace", "b": "ü"}, {"extra": "e", "a": "A"}, {"a": "v/1", "b": true, "id": "q?x=1"}, {"a": "%zz"},
+		// values formatted by their own methods: the URL carries what fmt's %v prints (Error() wins over String(), a typed
+		// nil pointer prints <nil>)
+		{"a": c17ErrStringer{}, "b": (*c17ValStringer)(nil), "id": time.Duration(1500) * time.Millisecond}, {"a": uint64(math.MaxUint64), "b": int8(-8), "c": 1.50, "d": 'x', "id": c17ValStringer{}}}
 	faults := []string{"", "serializer", "transport", "nonjson", "readfail", "deserializer-target", "deserializer-nil"}
 	for k := range c17TransportErrs {
 		faults = append(faults, "transport-once:"+k)
@@ -679,7 +693,7 @@ func init() {
 		Meta: func(c *core.Ctx) core.Meta {
 			return core.Meta{
 				Level: "fault_enumeration",
-				Rule: "11 constructors x 8 relative templates (0..4 placeholders, repeated and adjacent) x 9 PathParam maps (nil, empty, missing, extra, 1..4 keys, spaces, unicode, slash, '?', unparsable escape) x 4 bodies x 3 DefaultHeader sets x 15 injected outcomes (none, serializer error, transport error, a first round trip failing with EOF / unexpected EOF / ECONNRESET / EPIPE / ECONNREFUSED / net.OpError / wrapped EOF / deadline while a second one would succeed, non-JSON body, unreadable body, deserializer (target,err), deserializer (nil,err)); thorough = full product, quick = full over constructor x template x params x fault with bodies/headers rotated. " +
+				Rule: "11 constructors x 8 relative templates (0..4 placeholders, repeated and adjacent) x 11 PathParam maps (nil, empty, missing, extra, 1..4 keys, spaces, unicode, slash, '?', unparsable escape, values with Error()/String() methods, typed nil pointers, extreme numbers) x 4 bodies x 3 DefaultHeader sets x 15 injected outcomes (none, serializer error, transport error, a first round trip failing with EOF / unexpected EOF / ECONNRESET / EPIPE / ECONNREFUSED / net.OpError / wrapped EOF / deadline while a second one would succeed, non-JSON body, unreadable body, deserializer (target,err), deserializer (nil,err)); thorough = full product, quick = full over constructor x template x params x fault with bodies/headers rotated. " +
 					"A stub RoundTripper under SimpleHTTP captures method, URL, header map (identity + content) and body; each case: nothing before Eval, exactly one request per Eval (x2), expected method/URL/headers/body, target decoded, failures surface as Err without panic; a subset also through the real transport against a loopback server, plus response bodies of 0 B .. 4 MiB through the real transport, plus body TYPES other than pointers (slices, maps: nil / empty / filled; zero struct, empty string, 0) with the JSON serializer's output as oracle and a counting custom serializer. distinct_nontrivial = enumerated cases (distinct by construction)",
 				Assumptions: []string{"expected URL = BaseURL + '/' + template with every supplied {key} replaced by fmt.Sprint(value); values contain no braces; if that string does not parse as a URL the evaluation must yield Err",
 					"expected headers = DefaultHeader values + the declared Content-Type appended; the stub sees the request before net/http's real transport adds its own headers"},
